@@ -371,6 +371,13 @@ pub fn generate(prop: &str, thorough: bool, rng: &mut Rng) -> Case {
                     *hold = *hold && allow_hold;
                 }
             }
+            // a fifth of the runs: no close() at all - the last handle is simply dropped (foyer then closes, and flushes
+            // if configured so, in the background), and the store is reopened
+            if rng.chance(1, 5) {
+                ops.push(Op::Ctl { what: 31, arg: 0 });
+                clients.push(ops);
+                return Case { property: prop.to_string(), scenario: "hyb".into(), cfg, clients };
+            }
             ops.push(Op::Close);
             // writes after close only touch fresh keys (they must be ignored, not corrupt anything)
             let extra = rng.below(4);
